@@ -53,7 +53,7 @@ EXTENDS Naturals, Sequences, FiniteSets
 CONSTANTS N,          \* number of numbered (non-document, non-namespace) nodes
           Kinds,      \* subset of AllKinds
           RootCfg,    \* "R1" document | "R2" element, implied document | "R3" fragment | "R4" lone leaf | "R5" extended document | "R6" promoted element
-          Decls,      \* subset of {"none", "p", "dp"}
+          Decls,      \* subset of {"none", "p", "dp", "x", "px", "dpx", "pq"}
           DocLevel,   \* TRUE: comments/PIs may be children of the document (R1 only)
           Flat        \* TRUE: only the wide tree (every node 2..N is a child of node 1)
 
@@ -89,17 +89,30 @@ X == INSTANCE XDM WITH Kinds   <- {"ea", "eb", "t", "c", "p", "xa", "xc"},
                        RootCfg <- IF RootCfg = "R4" THEN "R2" ELSE IF RootCfg \in {"R5", "R6"} THEN "R1" ELSE RootCfg,
                        kind    <- bkind
 
-(* namespaces *)
-PrefixesOf(d) == CASE d = "none" -> {"xml"}
-                   [] d = "p"    -> {"xml", "p"}
-                   [] d = "dp"   -> {"xml", "", "p"}
-NsIdx(pfx) == CASE pfx = "xml" -> 1 [] pfx = "" -> 2 [] pfx = "p" -> 3
-PfxOfIdx(j) == CASE j = 1 -> "xml" [] j = 2 -> "" [] j = 3 -> "p"
-AllowedElem(d) == CASE d = "none" -> {"a0", "b0", "ax"}
-                    [] d = "p"    -> {"a0", "b0", "an", "ax"}
-                    [] d = "dp"   -> ElemK
-RootAllowed(d) == IF d = "dp" THEN {"ad", "bd", "an"} ELSE AllowedElem(d)   \* xmlns="urn:d" on a Q{}name is not XML
-AllowedAttr(d) == IF d = "none" THEN {"xa0", "xax"} ELSE AttrK
+(* namespaces.  A declaration value d names (a) what is declared on the    *)
+(* root element and (b) the MAP the caller hands to the API (namespaces=):  *)
+(*   "x" "px" "dpx" = "none" "p" "dp" + the caller's map ALSO names the     *)
+(*          reserved prefix xml (bound to XMLNS, the only legal binding);   *)
+(*   "pq"   = "p" + a second prefix q bound to the SAME namespace name as p *)
+(* The namespace nodes of an element are a SET keyed by prefix: the implicit*)
+(* xml binding united with the caller's / the declared map -- naming xml    *)
+(* explicitly adds nothing, an alias prefix adds a node of its own.         *)
+DeclBase(d) == CASE d = "x" -> "none" [] d \in {"px", "pq"} -> "p" [] d = "dpx" -> "dp" [] OTHER -> d
+ExplicitXml(d) == d \in {"x", "px", "dpx"}
+CallerMap(d) == (CASE DeclBase(d) = "none" -> {}
+                   [] DeclBase(d) = "p"    -> {"p"}
+                   [] DeclBase(d) = "dp"   -> {"", "p"})
+                \cup (IF d = "pq" THEN {"q"} ELSE {})
+                \cup (IF ExplicitXml(d) THEN {"xml"} ELSE {})
+PrefixesOf(d) == {"xml"} \cup CallerMap(d)
+NsUriOfPfx(pfx) == CASE pfx = "xml" -> XMLNS [] pfx = "" -> "urn:d" [] pfx \in {"p", "q"} -> "urn:n"
+NsIdx(pfx) == CASE pfx = "xml" -> 1 [] pfx = "" -> 2 [] pfx = "p" -> 3 [] pfx = "q" -> 4
+PfxOfIdx(j) == CASE j = 1 -> "xml" [] j = 2 -> "" [] j = 3 -> "p" [] j = 4 -> "q"
+AllowedElem(d) == CASE DeclBase(d) = "none" -> {"a0", "b0", "ax"}
+                    [] DeclBase(d) = "p"    -> {"a0", "b0", "an", "ax"}
+                    [] DeclBase(d) = "dp"   -> ElemK
+RootAllowed(d) == IF DeclBase(d) = "dp" THEN {"ad", "bd", "an"} ELSE AllowedElem(d)   \* xmlns="urn:d" on a Q{}name is not XML
+AllowedAttr(d) == IF DeclBase(d) = "none" THEN {"xa0", "xax"} ELSE AttrK
 
 ---------------------------------------------------------------------------
 (* The tree universe *)
